@@ -15,6 +15,7 @@ def run(tier, seed, replay):
     texts += tg.token_mutations(rng)
     texts += tg.edge_texts()
     texts += tg.odd_space_texts()
+    texts += tg.numeric_programs()
     texts += tg.long_texts(rng, tier)
     texts += tg.repo_corpus()
     texts += [tg.mutate_chars(rng, tg.program(rng, nlines=rng.randrange(1, 5)), rng.choice([1, 1, 1, 2, 3])) for _ in range(n)]
